@@ -26,6 +26,8 @@ Definition sA : str := [65].
 Definition sB : str := [66].
 Definition sC : str := [67].
 Definition sK : str := [107].
+Definition sPerson : str := [80; 101; 114; 115; 111; 110].
+Definition sL2 : str := [76; 50].
 (** bincode of [Value::Int64(1)]: variant 2, zig-zag 2 *)
 Definition vOne : value := [2; 2].
 
@@ -76,7 +78,7 @@ Qed.
 (** K2: a crash tears the last record; the database is reopened, written to and closed
     cleanly; the write is unreadable for ever *)
 Definition w06_2 : list session :=
-  [([OCreateNode [sA]], EClose); ([OCreateNode [sB]; OCreateNode [sC]], ECrash [(0, 50)]); ([OCreateNode [sC]], EClose)].
+  [([OCreateNode [sA]], EClose); ([OCreateNode [sB]; OCreateNode [sPerson]], ECrash [(0, 55)]); ([OCreateNode [sL2]], EClose)].
 (** the crash image the second session leaves *)
 Definition image_flags (cfg : wcfg) (ss : list session) (k : nat) : option (bool * bool) :=
   match nth_error (fst (real_sessions cfg ss)) k with
@@ -102,7 +104,7 @@ Qed.
 (** K5: the crash loses nothing, recovery drops the two uncommitted records but leaves them in
     the log; the next clean close commits them *)
 Definition w06_5 : list session :=
-  [([OCreateNode [sA]], EClose); ([OCreateNode [sB]; OCreateNode [sC]], ECrash []); ([OCreateNode [sC]], EClose)].
+  [([OCreateNode [sA]], EClose); ([OCreateNode [sB]; OCreateNode [sPerson]], ECrash []); ([OCreateNode [sL2]], EClose)].
 Lemma w06_5_l :
   ends_with_close w06_5
   /\ (exists o, nth_error (fst (real_sessions (engine_cfg MNoSync) w06_5)) 1 = Some o
